@@ -49,6 +49,19 @@ func genRange(t *rapid.T, fc *fileCase) (int64, int64) {
 	return a, b
 }
 
+// genFileOrHand: mostly files written by the builders, sometimes a hand-assembled one (no empty chunks; File- and
+// Raw-typed nodes mixed), which no writer at hand produces but every reader accepts.
+func genFileOrHand(t *rapid.T, minLen, maxLen int) *fileCase {
+	if rapid.IntRange(0, 4).Draw(t, "hand") == 0 {
+		mc := 1
+		if minLen > 1 {
+			mc = 3
+		}
+		return genHandFileDAGOpt(t, handOpts{NoEmpty: true, MinChunk: mc})
+	}
+	return genFileDAG(t, minLen, maxLen)
+}
+
 func subsetOf(log []cid.Cid, want map[cid.Cid]bool) (cid.Cid, bool) {
 	for _, c := range log {
 		if !want[c] {
@@ -64,7 +77,7 @@ const c05FileRule = "case = (file DAG of any shape, byte range [a,b) with a<b an
 func TestC05_P_FileRange(t *testing.T) {
 	ev := newEvid(t, c05FileRule)
 	rapid.Check(t, func(t *rapid.T) {
-		fc := genFileDAG(t, 1, 300)
+		fc := genFileOrHand(t, 1, 300)
 		a, b := genRange(t, fc)
 		ls := fc.St.LinkSystem()
 		want := map[cid.Cid]bool{}
@@ -326,7 +339,7 @@ const c05HistRule = "case = (file DAG, 1..2 readers from one lazily reified node
 func TestC05_P_FileRangeHistory(t *testing.T) {
 	ev := newEvid(t, c05HistRule)
 	rapid.Check(t, func(t *rapid.T) {
-		fc := genFileDAG(t, 8, 300)
+		fc := genFileOrHand(t, 8, 300)
 		ls := fc.St.LinkSystem()
 		pn, err := loadPlain(ls, fc.Root)
 		if err != nil {
